@@ -282,6 +282,34 @@ def systematic_constructors():
             out.append(["AnyBetween", ["tok", t], _nb(c, 1)])
         if _nb(c, -2):
             out.append(["AnyButBetween", _nb(c, -2), ["tok", t]])
+    out += large_constructors()
+    return out
+
+
+def _scatter(base, n, step=2):
+    return [chr(base + step * i) for i in range(n)]
+
+
+def large_constructors():
+    """Classes with many loose members (counts around 64 / 128 / 192 / 256 and their successors): size-triggered fast paths
+    and block-wise loops in the char-to-range merging only run for these."""
+    out = []
+    for n in (63, 64, 65, 66, 100, 127, 128, 129, 130, 193, 257):
+        for base, step in ((0x100, 2), (0x4E00, 3)):
+            cs = _scatter(base, n, step)
+            out.append(["AnyFrom"] + cs)
+            out.append(["AnyButFrom"] + list(reversed(cs)))
+    # many members of which some are adjacent (runs of 1, 2 and 3) and the highest / lowest are isolated
+    for n in (65, 129):
+        cs = []
+        for i in range(n):
+            cs.append(chr(0x400 + 4 * i))
+            if i % 3 == 1:
+                cs.append(chr(0x400 + 4 * i + 1))
+            if i % 9 == 4:
+                cs.append(chr(0x400 + 4 * i + 2))
+        out.append(["AnyFrom"] + cs[:n])
+        out.append(["AnyFrom"] + cs)
     return out
 
 
@@ -333,4 +361,50 @@ def systematic_algebra():
         if a[0] not in ("chr", "tok", "lit"):
             out.append(["inv", a])
             out.append(["inv", ["inv", a]]) if a != ["Any"] else None
+    out += large_algebra()
+    out += edge_algebra()
+    return out
+
+
+def edge_algebra():
+    """The two ends of the code-point range (the other families need neighbours on both sides and skip them): ranges that
+    start at U+0000 / end at U+10FFFF, subtracted and unioned so that the remainder touches the end."""
+    out = []
+    for s_, d in (("\x00", 1), ("\U0010ffff", -1)):
+        n1, n2, n3, n5 = _nb(s_, d), _nb(s_, 2 * d), _nb(s_, 3 * d), _nb(s_, 5 * d)
+        rng_ = (lambda a, b: ["AnyBetween", a, b]) if d == 1 else (lambda a, b: ["AnyBetween", b, a])
+        far = "z" if d == 1 else "\U0010ff00"
+        for r in (rng_(s_, n3), rng_(s_, far), rng_(s_, n1)):
+            out += [["sub", r, ["chr", s_]], ["sub", r, ["AnyFrom", s_]], ["sub", r, ["AnyFrom", s_, n1]], ["sub", r, rng_(s_, n1)],
+                    ["sub", r, ["AnyFrom", n1]], ["sub", r, rng_(s_, n5)], ["or", r, ["chr", s_]], ["inv", r]]
+        out += [["sub", ["AnyFrom", s_, n2], ["chr", s_]], ["sub", ["AnyFrom", s_, n1, n2], rng_(s_, n1)], ["sub", ["Any"], ["chr", s_]],
+                ["sub", ["Any"], rng_(s_, n3)], ["or", ["AnyFrom", s_], ["AnyFrom", n1]], ["or", rng_(n1, n3), ["chr", s_]],
+                ["sub", ["AnyButFrom", s_, n2], ["AnyButFrom", s_]], ["sub", ["AnyBut" + rng_(s_, n3)[0][3:]] + rng_(s_, n3)[1:], ["AnyButFrom", s_]],
+                ["sub", rng_(s_, far), rng_(n1, n3)], ["sub", ["or", rng_(s_, n3), ["AnyBetween", "a", "f"]], ["AnyFrom", s_, "a", "f"]]]
+    return out
+
+
+def large_algebra():
+    """Operands with many loose members against each other and against a few ranges whose starts / ends / insides
+    coincide with some of those members (size-triggered fast paths: sorted merges, binary searches)."""
+    out = []
+    for n in (40, 65, 100):
+        a = ["AnyFrom"] + _scatter(0x100, n, 4)
+        b = ["AnyFrom"] + _scatter(0x102, n, 4)
+        out += [["or", a, b], ["or", b, a], ["sub", ["or", a, b], b], ["inv", ["or", a, b]],
+                ["sub", a, ["AnyFrom"] + _scatter(0x100, n - 1, 4)],                     # only the highest member is left
+                ["sub", a, ["AnyFrom"] + _scatter(0x104, n - 1, 4)],                     # only the lowest member is left
+                ["sub", a, a[:1] + list(reversed(a[1:]))]]                               # nothing is left
+        cs = _scatter(0x4E00, n, 5)
+        big = ["AnyFrom"] + cs
+        lo, mid, hi = cs[0], cs[n // 2], cs[-1]
+        r_start = ["AnyBetween", mid, chr(ord(mid) + 3)]                                 # a member is the start of the range
+        r_end = ["AnyBetween", chr(ord(hi) - 3), hi]                                     # a member is the end of the range
+        r_in = ["AnyBetween", chr(ord(lo) - 2), chr(ord(lo) + 2)]                        # a member is inside the range
+        three = ["or", ["or", r_start, r_end], r_in]
+        out += [["sub", big, three], ["sub", big, r_start], ["sub", big, r_end], ["or", big, three],
+                ["sub", big, ["or", ["named", "AnyCJK"], ["named", "AnyDigit"]]] if "CJK" in cm.NAMED else ["sub", big, r_in],
+                ["sub", big, ["AnyBetween", lo, hi]],                                    # a covering range: nothing is left
+                ["sub", ["or", big, ["AnyBetween", "a", "f"]], ["or", three, ["AnyBetween", "c", "d"]]],
+                ["sub", ["AnyButFrom"] + cs, ["AnyButFrom"] + cs[1:]]]
     return out
